@@ -38,6 +38,17 @@ fn top_chain(n: usize) -> (Arena<u32>, Vec<NodeId>) {
     (a, ids)
 }
 
+trait ContainsId {
+    fn contains_slot_id(&self, id: NodeId) -> bool;
+}
+impl ContainsId for Vec<NodeId> {
+    /// (the removed ids are those of the even positions, in slot order: a direct index)
+    fn contains_slot_id(&self, id: NodeId) -> bool {
+        let slot = usize::from(id);
+        slot >= 2 && (slot - 2) % 2 == 0 && self.get((slot - 2) / 2) == Some(&id)
+    }
+}
+
 struct CountSink {
     bytes: usize,
     lines: usize,
@@ -189,6 +200,73 @@ pub fn run(prop: &str, depth: usize) {
                 }).expect("spawn");
                 if t.join().is_err() {
                     fail(prop, "pretty-printing a deep chain panicked");
+                }
+            }
+            if matches!(prop, "C06" | "C07" | "C08" | "C11") {
+                // counters / indices narrower than usize (a free-list link or a position kept in 16 bits)
+                let n = 70_000usize;
+                step("an arena with 70 000 slots: lookups for every id");
+                let mut a: Arena<u32> = Arena::new();
+                let root = a.new_node(u32::MAX);
+                let mut ids: Vec<NodeId> = Vec::with_capacity(n);
+                for k in 0..n {
+                    ids.push(root.append_value(k as u32, &mut a));
+                }
+                for (k, id) in ids.iter().enumerate() {
+                    let pos = std::num::NonZeroUsize::new(k + 2).unwrap();
+                    if usize::from(*id) != k + 2 || a.get_node_id_at(pos) != Some(*id) || a.get_node_id(&a[*id]) != Some(*id) || *a[*id].get() != k as u32
+                        || !std::ptr::eq(&a.as_slice()[k + 1], &a[*id]) || id.to_string() != (k + 2).to_string()
+                    {
+                        fail(prop, &format!("lookups disagree for the node in slot {}", k + 2));
+                    }
+                }
+                if a.count() != n + 1 || a.iter().count() != n + 1 || a.as_slice().len() != n + 1 {
+                    fail(prop, "count(), iter().count() and as_slice().len() disagree in a big arena");
+                }
+                step("remove every other node of 70 000, then allocate as many again: slots recycled, none lost, none handed out twice");
+                let removed: Vec<NodeId> = ids.iter().copied().step_by(2).collect();
+                for id in &removed {
+                    id.remove(&mut a);
+                }
+                let count0 = a.count();
+                let mut fresh: Vec<NodeId> = Vec::with_capacity(removed.len());
+                let mut slots_seen = vec![false; count0 + 1];
+                for j in 0..removed.len() {
+                    let id = a.new_node(1_000_000 + j as u32);
+                    let slot = usize::from(id);
+                    if a.count() != count0 {
+                        fail(prop, &format!("allocation {} after 35 000 removals grew the arena although removed slots were available", j + 1));
+                    }
+                    if slot > count0 || slots_seen[slot] || (slot - 2) % 2 != 0 || slot < 2 {
+                        fail(prop, &format!("allocation {} returned slot {slot}, which is occupied or was handed out already", j + 1));
+                    }
+                    slots_seen[slot] = true;
+                    if id.is_removed(&a) || a[id].is_removed() || removed.contains_slot_id(id) {
+                        fail(prop, &format!("allocation {} returned an id that is stale or reports removed", j + 1));
+                    }
+                    fresh.push(id);
+                }
+                let next = a.new_node(7);
+                if usize::from(next) != count0 + 1 || a.count() != count0 + 1 {
+                    fail(prop, "with no removed slot left the arena did not grow by exactly one slot");
+                }
+                for id in &removed {
+                    if !id.is_removed(&a) {
+                        fail(prop, "an id removed earlier reports live after its slot was recycled");
+                    }
+                }
+                for (k, id) in ids.iter().enumerate() {
+                    if k % 2 == 1 && (id.is_removed(&a) || *a[*id].get() != k as u32 || a[*id].parent() != Some(root)) {
+                        fail(prop, &format!("the untouched node in slot {} lost its payload, parent or liveness", k + 2));
+                    }
+                }
+                for (j, id) in fresh.iter().enumerate() {
+                    if *a[*id].get() != 1_000_000 + j as u32 || a[*id].parent().is_some() {
+                        fail(prop, "a node created in a recycled slot does not hold its own payload / starts with a link");
+                    }
+                }
+                if root.children(&a).count() != n / 2 {
+                    fail(prop, "the parent of 70 000 children does not have 35 000 after every other one was removed");
                 }
             }
             #[cfg(feature = "it-deser")]
